@@ -12,6 +12,8 @@ Why(s, o, r, e) ==
     ELSE IF r.obs.out # "" /\ e.out # r.obs.out THEN "OnlyGlobalsAndConfigPersist"
     ELSE IF e.badcb > 0 THEN "EveryDiagnosticDelivered"
     ELSE IF r.obs.ret \in {-2, -3, -6} /\ o.op # "null" /\ e.cbs = 0 THEN "EveryDiagnosticDelivered"
+    \* diagnostics of every level belong to the call: the verbose one of kind "verbose" reaches the callback
+    ELSE IF o.op = "call" /\ o.type = "s" /\ o.kind = "verbose" /\ e.vcbs = 0 THEN "EveryDiagnosticDelivered"
     ELSE ""
 
 TraceInit == l = 1 /\ st = InitState /\ dead = FALSE /\ bad = <<>> /\ nops = 0 /\ done = FALSE
